@@ -5,8 +5,9 @@ Decided: sentence 2 of the statement (verdict and decoded data do not depend on 
 kind) under every delivery plan, and sentence 1's agreement of is_valid / iter_errors /
 validate / strict decode / lax decode / package-level functions on each delivered copy,
 including consecutive calls that reuse one seekable file object or one XMLResource.
-Not decided: CLI exit-status arithmetic and agreement across validation options (pure input
-questions, DESIGN.md 3 C04).
+Also decided since the seeded-change rounds: the validate command (run in process, exit status as
+the OS reports it) and skip-mode data of valid documents. Not decided: agreement across validation
+options (a pure input question, DESIGN.md 3 C04).
 """
 import os
 
@@ -34,7 +35,7 @@ class C04(PoolCheck):
     ASSUMPTIONS = [
         "reference = iter_errors / lax decode of the same bytes on a pristine forked schema",
         "ElementTree / Element channels are used only for documents without prefix-dependent values",
-        "CLI exit status arithmetic is not examined (scoped claim)",
+        "the validate command is run in process (cli.validate with a patched argv); status = SystemExit code & 0xFF",
     ]
     REAL_STUB = {
         'real': ['xmlschema', 'elementpath', 'xml.etree.ElementTree/expat', 'urllib OpenerDirector plumbing',
